@@ -196,19 +196,41 @@ impl Spec {
     /// a shuffled order, some of them first with other values (the last value wins), image() possibly again
     /// after the size/gap/position setters. The history is a deterministic function of the spec (so a replay
     /// makes the same calls). A configuration is its final values; how they were reached must not matter.
+    /// The builder with this spec's final option values, reached through a noisy setter history. A third of the
+    /// builders have also been USED before they are handed out: they rendered a blank hand-made symbol of an unrelated
+    /// side with the final options (result discarded), or, half as often, in the middle of the setter history. A
+    /// rendering is a function of the symbol it is given and the option values, not of what the builder drew before.
     pub fn svg_builder(&self) -> SvgBuilder {
         let mut rng = Rng::new(oracle::rng::fnv(self.describe().as_bytes()) ^ 0x0bde);
         let mut b = SvgBuilder::default();
-        for op in self.noisy_history(&mut rng) {
-            apply_op(&mut b, &op);
+        let hist = self.noisy_history(&mut rng);
+        let used = rng.below(6);
+        let side = 17 + 4 * [1usize, 2, 7, 20, 40, 1 + rng.below(40)][rng.below(6)];
+        for (i, op) in hist.iter().enumerate() {
+            if used == 2 && i == hist.len() / 2 {
+                let _ = std::panic::catch_unwind(std::panic::AssertUnwindSafe(|| b.to_str(&fast_qr::QRCode::default(side))));
+            }
+            apply_op(&mut b, op);
+        }
+        if used < 2 {
+            let _ = std::panic::catch_unwind(std::panic::AssertUnwindSafe(|| b.to_str(&fast_qr::QRCode::default(side))));
         }
         b
     }
     pub fn image_builder(&self) -> ImageBuilder {
         let mut rng = Rng::new(oracle::rng::fnv(self.describe().as_bytes()) ^ 0x0bde);
         let mut b = ImageBuilder::default();
-        for op in self.noisy_history(&mut rng) {
-            apply_image_op(&mut b, &op);
+        let hist = self.noisy_history(&mut rng);
+        let used = rng.below(6);
+        let side = 17 + 4 * [1usize, 2, 3, 5, 7, 1 + rng.below(8)][rng.below(6)];
+        for (i, op) in hist.iter().enumerate() {
+            if used == 2 && i == hist.len() / 2 {
+                let _ = std::panic::catch_unwind(std::panic::AssertUnwindSafe(|| b.to_pixmap(&fast_qr::QRCode::default(side))));
+            }
+            apply_image_op(&mut b, op);
+        }
+        if used < 2 {
+            let _ = std::panic::catch_unwind(std::panic::AssertUnwindSafe(|| b.to_pixmap(&fast_qr::QRCode::default(side))));
         }
         b
     }
